@@ -407,6 +407,14 @@ fn ctor_case(v: &mut Verdicts, c: &Value) {
                 let same = |g: &Option<Vec<f64>>| g.as_ref().map(|g| g.len() == want.len() && g.iter().zip(&want).all(|(p, q)| p.to_bits() == q.to_bits())).unwrap_or(false);
                 if !(same(&g1) && same(&g2) && same(&g3)) { ok = false; worst = json!({"values": name, "a": fjs(&a), "t": g1.as_ref().map(|g| fjs(g)), "t_mut": g2.as_ref().map(|g| fjs(g))}); }
             }
+            // Clone::clone_from into an existing matrix of the same element count but another shape (1 x n^2): the target becomes the source -
+            // shape and data
+            for (name, base) in [("fractional", 0.5f64), ("integers", 0.0)] {
+                let src = Matrix::new(x.iter().map(|v| v + base).collect::<Vec<f64>>(), n as i32, n as i32);
+                let r = guard(|| { let mut t = mk(Vector::new(vec![9.0; n * n]), 1, n * n); t.clone_from(&src); let mut t2 = mk(Vector::new(vec![9.0; n]), n, 1); t2.clone_from(&src); (t, t2) });
+                let okc = r.as_ref().map(|(t, t2)| [t, t2].iter().all(|t| t.nrows == n && t.ncols == n && t.data.len() == n * n && t.data.iter().zip(src.data.iter()).all(|(p, q)| p.to_bits() == q.to_bits()))).unwrap_or(false);
+                if !okc { ok = false; worst = json!({"clone_from": name, "target": r.as_ref().map(|(t, _)| mat_json(t))}); }
+            }
             (ok, format!("n{}", n), worst)
         }
         "is_design" => {
